@@ -145,6 +145,8 @@ func decodeEntry(entry string, key, ver int16, stream []byte, budget time.Durati
 		return decodeDescribeGroups(key, stream, budget)
 	case "client":
 		return decodeClient(key, ver, stream, budget)
+	case "client-raw":
+		return decodeTransportWith("transport", key, ver, stream, budget, rawProduceCall)
 	case "transport", "transport-sasl0", "transport-sasl1":
 		return decodeTransport(entry, key, ver, stream, budget)
 	}
